@@ -1416,3 +1416,20 @@ package bpmn
 //@     exit ensures [the-relay-ends-only-on-the-inner-cease-flow-trace-and-the-parent-is-answered-only-afterwards] is(trace, CeaseFlowTrace) &&
 //@               count(Send, flowAction) == old(count(Send, flowAction)) &&
 //@               count(Trace, CeaseFlowTrace) == old(count(Trace, CeaseFlowTrace)) && countOn(Recv, ctxdone(ctx)) == old(countOn(Recv, ctxdone(ctx)))
+
+// Asking the harness for the next action: its goroutine and its boundary listeners' tokens are started by the first
+// request only (sync.Once) — a later activation (retry, loop, second token) must not start the same listener tokens
+// again, or one event would continue the exception flow several times; every request queues exactly one message.
+//@ func (*harness).NextAction
+//@   prop C10
+//@   ensures [goroutine-and-boundary-listeners-are-started-by-the-first-request-only] old(oncedone(mu(node.once))) ==>
+//@             count(Spawn, code("(*flow).Start$1")) == old(count(Spawn, code("(*flow).Start$1"))) &&
+//@             count(Spawn, code("(*harness).run")) == old(count(Spawn, code("(*harness).run")))
+//@   ensures [the-first-request-starts-one-token-per-boundary-listener] !old(oncedone(mu(node.once))) ==>
+//@             count(Spawn, code("(*flow).Start$1")) == old(count(Spawn, code("(*flow).Start$1"))) + len(node.flows) &&
+//@             count(Spawn, code("(*harness).run")) == old(count(Spawn, code("(*harness).run"))) + 1
+//@   ensures [one-request-queued] count(Send, nextHarnessActionMessage) == old(count(Send, nextHarnessActionMessage)) + 1
+//@   loop 1 range node.flows
+//@     invariant count(Spawn, code("(*flow).Start$1")) == old(count(Spawn, code("(*flow).Start$1"))) + rk1 &&
+//@               count(Spawn, code("(*harness).run")) == old(count(Spawn, code("(*harness).run"))) + 1 &&
+//@               count(Send, nextHarnessActionMessage) == old(count(Send, nextHarnessActionMessage)) && node.flows == old(node.flows)
